@@ -350,6 +350,10 @@ def finish(chk, ob, br, trusted_base, assumptions, rule, checker_cmd):
             chk.diverge("trust anchors in force = RP-supplied roots + the built-in roots (pinned constants of webauthn.helpers.known_root_certs)",
                         f"a certificate store built during verification held an anchor that is neither: {x['subject']} sha256={x['fingerprint']}", x)
         del _impl.FOREIGN_ANCHORS[:]
+        for x in _impl.TYPE_SLIPS:
+            chk.violation(f"a parsed credential record holds {x['held']} in a field its type declares as {x['declared']}: the value was recognised but not converted (identity, .value, str() differ from the member's)",
+                          f"parsed-field-not-the-enum-member {x['declared']}", {"entry": "parse_*_credential_json", "input": x["input"], "declared": x["declared"], "held": x["held"]})
+        del _impl.TYPE_SLIPS[:]
         # value semantics of everything that was returned during this check: a result still reads as it did when it was handed out, whatever calls came later
         stale = 0
         for r, pr, line in _impl.KEPT:
